@@ -90,6 +90,9 @@ def gen_cases(rng, tier):
     # multiplicity(p, n): the exponent of p in n, for negative n too (the sign carries no factor)
     texts += ["multiplicity(2, -8)", "multiplicity(3, -9)", "2 ** multiplicity(2, -8) * 3", "multiplicity(2, 40)", "Multiplicity(5, 0 - 50) + 1",
               "multiplicity(2, 7)", "multiplicity(3, 2)"]
+    # runs of unary signs in front of something that is NOT a literal (a symbol, a port, a call, a bracket, a power): every sign counts
+    texts += ["--x", "+-x", "-+x", "---x", "y - - -x", "y + - - x", "--x ** 2", "--a.#p", "+-f(x, 2)", "--(x + y) * 3", "2 ** --x", "-+-+x - +-y",
+              "--max(x, y)", "x * - - y"]
     # sgn of an argument that is provably >= 0 (or <= 0) but may be ZERO: not folded to 1 (or -1)
     texts += ["sgn(x % 3)", "sgn(mod(x, 5))", "sgn(max(0, x - 5))", "sgn(-(x % 3))", "sgn((x % 3) * (y % 2))", "sgn(x % 3 + 1)", "sgn(max(0, x)) + 1"]
     # identifiers wrapped in underscores the way the parser's own placeholders (__lambda__, __in__) are: ordinary names, every
